@@ -57,7 +57,9 @@ def run(tier, seed):
     c.assumptions = [
         "one refresh at a time (compute_cache is not called concurrently with itself)",
         "resources carry their true generation only in the harness (Res{rid,gen}); the real MKMap has none",
-        "quick tier replays the refresh as the four pool calls compute_cache makes",
+        "the schedule replay performs the refresh as the pool calls compute_cache makes; the real "
+        "MithrilProverService (compute_cache vs compute_transactions_proofs) is exercised free-running (stress), "
+        "which detects an interleaving defect only with high probability, not certainly",
     ]
     c.cov["trusted_base"] = ["TLC", "verif hook observer/scheduler in harness c18_pool", "OS threads"]
     # MC on the implementation-shaped spec
@@ -90,6 +92,13 @@ def run(tier, seed):
     s = c.run_harness("c18_pool", ["--mode", "stress", "--out", trace, "--seed", seed,
                                     "--rounds", 60 if tier == "quick" else 600, "--ops", 80])
     c.validate("pool", "PoolTrace", "PoolTrace.cfg", trace, name="stress")
+    # the real prover in the loop: MithrilProverService::compute_cache racing with proof requests on the
+    # prover's own pool; the generation a proof used is recognised from its Merkle root
+    c.build("vh-aggregator", ["c18_prover"])
+    trace = os.path.join(c.work, "prover.trace.ndjson")
+    s = c.run_harness("c18_prover", ["--out", trace, "--rounds", 80 if tier == "quick" else 800,
+                                      "--users", 3, "--refreshes", 4, "--proofs", 30])
+    c.validate("pool", "PoolTrace", "PoolTrace.cfg", trace, name="prover_stress")
     return c.finish()
 
 
